@@ -216,6 +216,12 @@ impl Space for C05 {
     fn chunk(&self) -> u64 {
         64
     }
+    fn heavy(&self) -> Vec<(u64, u64)> {
+        // the thousands-of-bits rationals are the last entries of the first family: seconds per numeral
+        let per = (self.bases.len() * MODES.len()) as u64;
+        let n = self.rats.len() as u64;
+        vec![((n - 4) * per, n * per)]
+    }
     fn time_limit(&self, _idx: u64) -> std::time::Duration {
         std::time::Duration::from_secs(60)
     }
